@@ -299,8 +299,8 @@ theorem pmf_history_free {p p' q q' : Prism ℝ} {w w' : MA ℝ} (hd : C07.DInv 
     (gd : GoodArr p.dom p.n p.totalCorr) (gd' : GoodArr p.dom p.n p'.totalCorr)
     (hc : canonF p.dom p.totalCorr = canonF p.dom p'.totalCorr)
     (h : p.pmf = .ok (q, w)) (h' : p'.pmf = .ok (q', w')) : Eqv w w' := by
-  obtain ⟨g, h1, a1, a2, a3, a4⟩ := C05.pmf_def h
-  obtain ⟨g', h1', b1, b2, b3, b4⟩ := C05.pmf_def h'
+  obtain ⟨g, h1, a1, a2, a3, a4⟩ := C05.pmf_entry_model h
+  obtain ⟨g', h1', b1, b2, b3, b4⟩ := C05.pmf_entry_model h'
   have e := pair_correlation_history_free hd hdom gd gd' hc h1 h1'
   refine ⟨by rw [a2, b2]; exact e.1, by rw [a3, b3]; exact e.2.1, by rw [a1, b1], ?_⟩
   intro l i j hl hi hj
